@@ -1,0 +1,171 @@
+//go:build verif
+
+package kafkaconsumer
+
+// Verification hooks (build tag `verif`): add-only accessors and constructors used by the
+// external verification harness. Nothing in this file is compiled into normal builds.
+
+import (
+	"context"
+	"sync"
+	"time"
+
+	"github.com/confluentinc/confluent-kafka-go/kafka"
+	"golang.org/x/time/rate"
+
+	"github.com/digitalocean/firebolt"
+	"github.com/digitalocean/firebolt/fbcontext"
+	kafkainterface "github.com/digitalocean/firebolt/kafka"
+)
+
+// VerifNewMetrics returns registered consumer metrics (registration errors are ignored by the real code too).
+func VerifNewMetrics() *Metrics {
+	m := &Metrics{}
+	m.RegisterConsumerMetrics()
+	return m
+}
+
+// VerifNewRecoveryConsumer builds a RecoveryConsumer over the given client without starting any goroutine.
+// The limiter is built exactly as NewRecoveryConsumer builds it unless unlimited is set.
+func VerifNewRecoveryConsumer(c kafkainterface.MessageConsumer, topic string, sendCh chan firebolt.Event, maxRecords int, maxRate int, m *Metrics, fbctx fbcontext.FBContext, unlimited bool) *RecoveryConsumer {
+	lim := rate.NewLimiter(rate.Limit(maxRate), 100)
+	if unlimited {
+		lim = rate.NewLimiter(rate.Inf, 1)
+	}
+	rt, _ := NewRecoveryTracker(m, fbctx)
+	return &RecoveryConsumer{
+		consumer:            c,
+		topic:               topic,
+		sendCh:              sendCh,
+		doneCh:              make(chan struct{}),
+		tracker:             rt,
+		assignedPartitions:  []kafka.TopicPartition{},
+		maxRecordsToRecover: maxRecords,
+		maxRecordsPerSec:    maxRate,
+		updateRequestEvery:  int64(updateRecoveryRequestSeconds * maxRate),
+		rateLimiter:         lim,
+		ctx:                 context.Background(),
+		metrics:             m,
+		refreshTicker:       time.NewTicker(time.Hour),
+	}
+}
+
+// VerifNewKafkaConsumer builds a KafkaConsumer over the given client; rc may be nil (recovery disabled).
+func VerifNewKafkaConsumer(c kafkainterface.MessageConsumer, topic string, sendCh chan firebolt.Event, maxLag int, m *Metrics, rc *RecoveryConsumer, fbctx fbcontext.FBContext) *KafkaConsumer {
+	k := &KafkaConsumer{
+		consumer:                c,
+		topic:                   topic,
+		sendCh:                  sendCh,
+		doneCh:                  make(chan struct{}, 1),
+		assignPartitionsMutex:   sync.Mutex{},
+		maxInitialPartitionLag:  maxLag,
+		metrics:                 m,
+		recoveryConsumerEnabled: rc != nil,
+		recoveryConsumer:        rc,
+	}
+	k.Init("verif-source", fbctx)
+	k.assignPartitionsCtx, k.assignPartitionsCancel = context.WithCancel(context.Background())
+	return k
+}
+
+// VerifAssignPartitions exposes assignPartitions.
+func (k *KafkaConsumer) VerifAssignPartitions(p []kafka.TopicPartition) error {
+	return k.assignPartitions(p)
+}
+
+// VerifProcessEvent exposes processEvent.
+func (k *KafkaConsumer) VerifProcessEvent(ev kafka.Event) { k.processEvent(ev) }
+
+// VerifRevoke exposes revokePartitionAssignments.
+func (k *KafkaConsumer) VerifRevoke() { k.revokePartitionAssignments() }
+
+// VerifBuildConfigMap exposes buildConfigMap.
+func (k *KafkaConsumer) VerifBuildConfigMap(config map[string]string) (*kafka.ConfigMap, error) {
+	return k.buildConfigMap(config)
+}
+
+// VerifCheckConfig exposes checkConfig.
+func (k *KafkaConsumer) VerifCheckConfig(config map[string]string) error {
+	return k.checkConfig(config)
+}
+
+// VerifRecoveryConsumer returns the recovery consumer created by Setup (nil if disabled).
+func (k *KafkaConsumer) VerifRecoveryConsumer() *RecoveryConsumer { return k.recoveryConsumer }
+
+// VerifProcessEvent exposes processEvent.
+func (rc *RecoveryConsumer) VerifProcessEvent(ev kafka.Event) { rc.processEvent(ev) }
+
+// VerifBuildConfigMap exposes buildConfigMap.
+func (rc *RecoveryConsumer) VerifBuildConfigMap(config map[string]string) (*kafka.ConfigMap, error) {
+	return rc.buildConfigMap(config)
+}
+
+// VerifAssigned returns the partitions the recovery consumer believes are owned.
+func (rc *RecoveryConsumer) VerifAssigned() []kafka.TopicPartition { return rc.assignedPartitions }
+
+// VerifActiveState is a copy of one entry of the active partition map.
+type VerifActiveState struct {
+	Partition int32
+	Assigned  int64
+	From      int64
+	To        int64
+}
+
+// VerifActive returns a copy of the active partition map (unordered).
+func (rc *RecoveryConsumer) VerifActive() []VerifActiveState {
+	var out []VerifActiveState
+	for p, s := range rc.activePartitionMap {
+		out = append(out, VerifActiveState{Partition: p, Assigned: int64(s.partition.Offset), From: s.fromOffset, To: s.toOffset})
+	}
+	return out
+}
+
+// VerifTracker returns the tracker.
+func (rc *RecoveryConsumer) VerifTracker() *RecoveryTracker { return rc.tracker }
+
+// VerifLimiter returns the limit and burst of the limiter in use.
+func (rc *RecoveryConsumer) VerifLimiter() (float64, int) {
+	return float64(rc.rateLimiter.Limit()), rc.rateLimiter.Burst()
+}
+
+// VerifDetach stops the background goroutines of a really-constructed recovery consumer, closes its client and
+// substitutes the given one, keeping everything else (limiter included) as NewRecoveryConsumer made it.
+func (rc *RecoveryConsumer) VerifDetach(c kafkainterface.MessageConsumer, sendCh chan firebolt.Event) {
+	rc.refreshTicker.Stop()
+	rc.doneCh <- struct{}{}
+	_ = rc.consumer.Close()
+	rc.consumer = c
+	rc.sendCh = sendCh
+}
+
+// VerifReceive exposes receiveRequest.
+func (rt *RecoveryTracker) VerifReceive(key string, payload []byte) { rt.receiveRequest(key, payload) }
+
+// VerifCancelAll exposes cancelAll.
+func (rt *RecoveryTracker) VerifCancelAll() error { return rt.cancelAll() }
+
+// VerifSnapshot returns a copy of the requests tracked for a partition and whether the partition has an entry.
+func (rt *RecoveryTracker) VerifSnapshot(p int32) ([]RecoveryRequest, bool) {
+	rt.requestLock.RLock()
+	defer rt.requestLock.RUnlock()
+	rs, ok := rt.recoveryRequests[p]
+	if !ok || rs == nil {
+		return nil, ok
+	}
+	out := make([]RecoveryRequest, 0, len(rs.Requests))
+	for _, r := range rs.Requests {
+		out = append(out, *r)
+	}
+	return out, true
+}
+
+// VerifPartitions returns the partition ids the tracker has entries for (unordered).
+func (rt *RecoveryTracker) VerifPartitions() []int32 {
+	rt.requestLock.RLock()
+	defer rt.requestLock.RUnlock()
+	var out []int32
+	for p := range rt.recoveryRequests {
+		out = append(out, p)
+	}
+	return out
+}
